@@ -376,7 +376,7 @@ fn first_use_backend<B: Backend>(opts: &Opts, rep: &mut Report) {
 
 // ------------------------------------------------------------------------------------------------
 // Part C: failure histories
-fn probe<B: Backend>(local: &LocalKey<B>, secret: &SecretKey<B>, fixed: &Shared<B>) -> Vec<String> {
+fn probe<B: Backend>(local: &LocalKey<B>, secret: &SecretKey<B>, pke_sk: &Key<B, PkeSecret>, fixed: &Shared<B>) -> Vec<String> {
     let kl = KeyPair::<B>::Local(local.clone());
     let pk = secret.public_key();
     let kp = KeyPair::<B>::Public(secret.clone(), pk.clone());
@@ -392,7 +392,10 @@ fn probe<B: Backend>(local: &LocalKey<B>, secret: &SecretKey<B>, fixed: &Shared<
         format!("{:?}", kp.open(&fixed.valid_public[2], b"").map(|(c, _)| hx(&c)).map_err(|e| err_kind(&e))),
         format!("{:?}", kl.open(&fixed.forged_local[2], b"").is_err()),
         format!("{:?}", kp.seal(b"x", b"", b"").and_then(|t| kp.open(&t, b"")).map(|(c, _)| hx(&c)).map_err(|e| err_kind(&e))),
-        format!("{:?}", unwrap::<B>(Wk::PieLocal, &fixed.pie_blobs[0], &fixed.secrets).map(|k| hx(&k)).map_err(|e| err_kind(&e))),
+        // the key under test is also the PIE wrapping key and (pke_sk) the long-lived unsealing key
+        format!("{:?}", pie_unwrap_local::<B>(&fixed.pie_blobs[0], local).map(|k| hx(&k)).map_err(|e| err_kind(&e))),
+        format!("{:?}", pke_unseal::<B>(&fixed.sealed_blobs[0], pke_sk).map(|k| hx(&k)).map_err(|e| err_kind(&e))),
+        key_text(pke_sk),
     ]
 }
 
@@ -411,6 +414,8 @@ fn histories_backend<B: Backend>(opts: &Opts, rep: &mut Report) {
         let kp = KeyPair::<B>::Public(fixed.secret.clone(), fixed.secret.public_key());
         let k_local = kl.local_ref().unwrap();
         let k_secret = kp.secret_ref().unwrap();
+        // long-lived key-unsealing key: failing unseals run on this very object
+        let k_pke = key_from_bytes::<B, PkeSecret>(&fixed.secrets.pke_sk).expect("pke secret");
         let steps = 5 + rng.below(46);
         let mut history: Vec<&'static str> = vec![];
         for step in 0..steps {
@@ -432,14 +437,14 @@ fn histories_backend<B: Backend>(opts: &Opts, rep: &mut Report) {
                     let (h, mut b) = split_paserk(&fixed.pie_blobs[i % 8]);
                     let j = i % b.len();
                     b[j] ^= 1;
-                    unwrap::<B>(Wk::PieLocal, &join_paserk(&h, &b), &fixed.secrets).is_err()
+                    pie_unwrap_local::<B>(&join_paserk(&h, &b), k_local).is_err()
                 }
                 "unwrap-wrong-kind" => unwrap::<B>(Wk::PieSecret, &fixed.pie_blobs[i % 8].replacen("local-wrap", "secret-wrap", 1), &fixed.secrets).is_err(),
                 "unseal-corrupt" => {
                     let (h, mut b) = split_paserk(&fixed.sealed_blobs[i % 8]);
                     let j = (i * 7) % b.len();
                     b[j] ^= 0x80;
-                    unwrap::<B>(Wk::Seal, &join_paserk(&h, &b), &fixed.secrets).is_err()
+                    pke_unseal::<B>(&join_paserk(&h, &b), &k_pke).is_err()
                 }
                 "pw-unwrap-wrong-password" => {
                     let mut s = fixed.secrets.clone();
@@ -462,7 +467,8 @@ fn histories_backend<B: Backend>(opts: &Opts, rep: &mut Report) {
             // after every step: K must be indistinguishable from a fresh copy parsed from its serialisation
             let fresh_local: LocalKey<B> = fixed.local_text.parse().expect("local text");
             let fresh_secret: SecretKey<B> = fixed.secret_text.parse().expect("secret text");
-            let (a, b) = match guard(|| (probe::<B>(k_local, k_secret, &fixed), probe::<B>(&fresh_local, &fresh_secret, &fixed))) {
+            let fresh_pke = key_from_bytes::<B, PkeSecret>(&fixed.secrets.pke_sk).expect("pke secret");
+            let (a, b) = match guard(|| (probe::<B>(k_local, k_secret, &k_pke, &fixed), probe::<B>(&fresh_local, &fresh_secret, &fresh_pke, &fixed))) {
                 Ok(x) => x,
                 Err(pn) => {
                     rep.violation(&format!("C17|{}|probe-panic-after-history", B::NAME), json!({"history": history, "panic": pn}));
